@@ -51,9 +51,12 @@ class HasCell:
         # update private attribute
         self._mesa_cell = cell
 
-        # re-entering the current cell: it has room again after the removal above
+        # re-entering the current cell: back to the end of its list.  The agent was an occupant already, so the
+        # capacity is not asked again: a cell whose capacity was lowered under its occupancy (cell.capacity = k)
+        # turned its own occupant away after it had left, and agent.cell named a cell that did not list it
         if cell is not None and cell is old_cell:
-            cell.add_agent(self)
+            cell._agents.append(self)
+            cell.empty = False
 
 
 class BasicMovement:
